@@ -177,6 +177,9 @@ def forms():
         "rule s\n  command = c\n  dyndep = $out.dd\nbuild a$ b: s x | a$ b.dd\n",
         "rule s\n  command = c $out $in\n  depfile = $out.d\n  rspfile = $out.rsp\n  rspfile_content = $in\nbuild a$ b: s x$ y z=1\n",
         "pool p_a$ b\n  depth = 1\nrule s\n  command = c\n  pool = p_$out\nbuild a$ b: s x\n",
+        # $in and $in_newline (and $out) side by side in one binding, in either order, with two and three inputs
+        "rule s\n  command = c $in | $in_newline | $out\n  description = $in_newline + $in\nbuild a b: s x y z\n",
+        "rule s\n  command = c $in_newline ; $in ; $in_newline\n  rspfile = a.rsp\n  rspfile_content = $in $in_newline $out\nbuild a: s x$ y z\n",
         "deps = gcc\nrestat = 1\ngenerator = 1\npool = p\ndyndep = x\nbuild a: r x\n", "build a: r x\r\n  pool = p\r\n", "# c\n  # indented comment\nbuild a: r x\n  # c\n  pool = p\n",
     ]
     for i, t in enumerate(extra):
